@@ -21,6 +21,18 @@ struct CaseCtx {
     std::map<std::string, std::string> args;
     Rng rng;
     Obs obs;
+    FILE* out = nullptr;
+    // Call after generating the inputs and before executing code that may crash: the runner attributes a crash of
+    // this process to this case and uses `cls` (a short classification of the input) in the violation key.
+    void announce(const std::string& cls)
+    {
+        if (!out)
+            return;
+        JObj o;
+        o.i("pre", index).str("class", cls).obj("params", obs.params);
+        fprintf(out, "%s\n", o.dump().c_str());
+        fflush(out);
+    }
     CaseCtx(const std::string& p, uint64_t s, long long i, const std::string& t, const std::map<std::string, std::string>& a)
         : prop(p), seed(s), index(i), tier(t), args(a), rng(s, p, (uint64_t)i)
     {
@@ -68,6 +80,7 @@ inline int driver_main(int argc, char** argv, const char* prop, const std::funct
         fflush(f);
         CaseCtx ctx(prop, seed, i, tier, args);
         ctx.obs.top.i("case", i);
+        ctx.out = f;
         try {
             run_case(ctx);
         }
